@@ -54,3 +54,17 @@ T7 = [(t,f,v,h,s) for t in range(5) for f in (0,2) for v in (0,1,2) for h in (Fa
 w("C07", {"quick": c07(Q7, 1), "thorough": c07(T7, 1) + c07([(0,0,0,False,False), (2,2,0,True,False)], 2),
  "outside": ["flushes inside shared-tag groups", "a target that never returns from the implementation (the harness always releases it eventually)", "more than 2 preemptions"],
  "assumptions": [SCHED, "a FlushOp implementation calls req.Flush() only for requests it has been handed (it synchronises with its own workers)", "an implementation that answers a saved request later hands it over through a synchronising channel"]})
+
+# ---------------- C11 ----------------
+def c11(combos, P):
+    F = KIT + ["c11"]
+    runs = []
+    kn = {0: "Tread", 1: "Tclunk", 2: "Twalk creating a fid"}
+    for (nf, w, k0, k1, mp, mid) in combos:
+        runs.append({"harness": "vxH11", "args": [str(nf), str(w), str(k0), str(k1), str(mp), "true" if mid else "false"], "files": F, "preempt": P, "race": True, "reach": ["done"], "timeout_s": 1500,
+                     "bounds": f"victim with {['fid 0 attached','+ fid 1 walked','+ fid 1 open'][nf]}; {w} requests held in the implementation at the disconnect ({kn[k0]}{', '+kn[k1] if w==2 else ''}), released afterwards in every order; Maxpend={mp}; mid-frame={mid}; bystander connection; <= {P} preemptions"})
+    return runs
+w("C11", {"quick": c11([(0,0,0,0,0,False), (2,1,0,0,0,False), (2,1,1,0,0,True), (1,1,2,0,1,False), (1,2,2,1,0,False)], 1),
+ "thorough": c11([(nf,w_,k0,k1,mp,mid) for nf in (0,1,2) for (w_,k0,k1) in ((0,0,0),(1,0,0),(1,1,0),(1,2,0),(2,0,1),(2,2,1)) for mp in (0,1) for mid in (False,True) if not (nf == 0 and k0 == 1)], 1),
+ "outside": ["more than 2 requests executing at the disconnect, more than 1 preemption", "write errors as the cause of the disconnect"],
+ "assumptions": [SCHED]})
